@@ -238,6 +238,10 @@ func (a *attrs) taintOf(fr *Frame, v ssa.Value) string {
 }
 
 func (a *attrs) install(opts *VCOpts) {
+	opts.StrConstFact = func(q *Query, sym string) string {
+		a.decl(q)
+		return "(not (gs_ctx " + sym + "))" // literals carry no cancellation cause
+	}
 	opts.OnMakeInterface = func(fr *Frame, x *ssa.MakeInterface, iv Val) {
 		if !isErrPtr(x.X.Type()) {
 			return
@@ -366,9 +370,6 @@ func (a *attrs) install(opts *VCOpts) {
 // string constants carry no cancellation cause
 func (a *attrs) constFacts(q *Query) {
 	a.decl(q)
-	for _, s := range q.strOrder {
-		q.asserts = append(q.asserts, "(not (gs_ctx "+q.strConsts[s]+"))")
-	}
 }
 
 func init() {
@@ -400,6 +401,17 @@ func init() {
 			}
 			return boolSV(app(f, v.V)), nil
 		}
+	}
+	specBuiltinsExtra["msgctx"] = func(env *SpecEnv, x *ast.CallExpr) (SV, error) {
+		v, err := env.eval(x.Args[0])
+		if err != nil {
+			return SV{}, err
+		}
+		if len(v.V.C) != 1 || env.sortOf(v) != "Str" {
+			return SV{}, errNotErr
+		}
+		(&attrs{}).decl(env.fr.q)
+		return boolSV("(gs_ctx " + v.V.C[0] + ")"), nil
 	}
 	specBuiltinsExtra["structured"] = one("g_struct")
 	specBuiltinsExtra["isctx"] = one("g_isctx")
